@@ -21,6 +21,8 @@ EXTENDS Naturals, Sequences, FiniteSets
 
 CONSTANTS L,        \* number of lanes
           MAXLEN,   \* the "idle" length (0xFFFF in the code); larger than any job length
+          TieNew,   \* FALSE: ties go to the lowest lane (phminposuw); TRUE: on submit the lane just filled wins a tie
+                    \* (AES-CBCS 1:9: compare chain that starts from the new lane)
           R         \* granularity of the kernel: 1 for the block ciphers (lengths are whole blocks anyway); 4 for ZUC-EEA3,
                     \* whose kernel (asm_ZucCipher_N) rounds the minimum up to whole 32-bit keystream words, takes that off
                     \* every lane and clamps at 0 - a lane whose remainder is below the rounded minimum completes too
@@ -45,17 +47,20 @@ MaxLane(S) == CHOOSE l \in S : \A k \in S : k <= l
 \* "Find min length ... call kernel ... len_is_0: process completed job idx"
 \* eff = the lengths the selection sees, st.args = the arguments the kernel will use
 \* result: new state, the completed job and the minimum handed to the kernel
-Adv(st, eff) ==
-    LET idx == ArgMin(eff)
+\* lane selected: pref is the lane just filled by a submit (or L: none)
+Sel(eff, pref) == IF TieNew /\ pref \in Lanes /\ eff[pref] = MinOf(eff, Lanes) THEN pref ELSE ArgMin(eff)
+
+Adv(st, eff, pref) ==
+    LET idx == Sel(eff, pref)
         mn == eff[idx]
         mr == ((mn + R - 1) \div R) * R                       \* what the kernel takes off every lane
     \* bytes actually processed per lane (idle lanes duplicate a live lane for exactly the minimum)
     IN [l \in Lanes |-> IF st.jil[l] = NOJOB THEN mn ELSE IF eff[l] > mr THEN mr ELSE eff[l]]
 
-Process(st, eff) ==
-    LET idx == ArgMin(eff)
+Process(st, eff, pref) ==
+    LET idx == Sel(eff, pref)
         mn == eff[idx]
-        adv == Adv(st, eff)
+        adv == Adv(st, eff, pref)
         lens2 == IF mn = 0 THEN st.lens ELSE [l \in Lanes |-> eff[l] - adv[l]]
         args2 == [l \in Lanes |-> [st.args[l] EXCEPT !.pos = @ + adv[l]]]
     IN [st |-> [stack |-> <<idx>> \o st.stack,
@@ -66,9 +71,9 @@ Process(st, eff) ==
         kernel |-> mn]
 
 \* the set of <<buffer, position, key>> cells that kernel call writes (kept apart from Process: trace replay never needs it)
-ProcessWrites(st, eff) ==
-    LET adv == Adv(st, eff) IN
-    IF eff[ArgMin(eff)] = 0 THEN {}
+ProcessWrites(st, eff, pref) ==
+    LET adv == Adv(st, eff, pref) IN
+    IF eff[Sel(eff, pref)] = 0 THEN {}
     ELSE UNION { { <<st.args[l].buf, st.args[l].pos + k, st.args[l].key>> : k \in 0 .. adv[l] - 1 } : l \in Lanes }
 
 \* SUBMIT_JOB_AES_ENC
@@ -82,9 +87,9 @@ OSubmit(st, j, len) ==
     LET st1 == SubmitState(st, j, len)
     IN IF st1.stack # <<>>
        THEN [st |-> st1, ret |-> NOJOB, kernel |-> 0]      \* lanes not full: return NULL
-       ELSE Process(st1, st1.lens)
+       ELSE Process(st1, st1.lens, Head(st.stack))
 OSubmitWrites(st, j, len) ==
-    LET st1 == SubmitState(st, j, len) IN IF st1.stack # <<>> THEN {} ELSE ProcessWrites(st1, st1.lens)
+    LET st1 == SubmitState(st, j, len) IN IF st1.stack # <<>> THEN {} ELSE ProcessWrites(st1, st1.lens, Head(st.stack))
 
 \* FLUSH_JOB_AES_ENC
 FlushArgs(st) == LET good == MaxLane(Busy(st)) IN                              \* the cmovne chain: highest busy lane
@@ -92,6 +97,6 @@ FlushArgs(st) == LET good == MaxLane(Busy(st)) IN                              \
 FlushEff(st) == [l \in Lanes |-> IF st.jil[l] = NOJOB THEN MAXLEN ELSE st.lens[l]]
 OFlush(st) ==
     IF Busy(st) = {} THEN [st |-> st, ret |-> NOJOB, kernel |-> 0]
-    ELSE Process(FlushArgs(st), FlushEff(st))
-OFlushWrites(st) == IF Busy(st) = {} THEN {} ELSE ProcessWrites(FlushArgs(st), FlushEff(st))
+    ELSE Process(FlushArgs(st), FlushEff(st), L)
+OFlushWrites(st) == IF Busy(st) = {} THEN {} ELSE ProcessWrites(FlushArgs(st), FlushEff(st), L)
 =============================================================================
